@@ -2,4 +2,4 @@
 # thorough tier of the named (default: all claimed) checks on /repo, -P 3; one result line each; full logs in build/thorough/
 cd /verif; mkdir -p build/thorough
 props="$@"; [ -z "$props" ] && props=$(/venv/bin/python -c "import json;print(' '.join(c['property_id'] for c in json.load(open('MANIFEST.json'))['checks']))")
-echo $props | tr ' ' '\n' | xargs -P 3 -I{} sh -c 's=$(date +%s); ./check {} --tier thorough > build/thorough/{}.log 2>&1; rc=$?; echo "{} exit=$rc $(grep -c "^VIOLATION" build/thorough/{}.log) violations wall=$(( $(date +%s) - s ))s | $(tail -1 build/thorough/{}.log | cut -c1-160)"'
+echo $props | tr ' ' '\n' | xargs -P ${TPAR:-3} -I{} sh -c 's=$(date +%s); ./check {} --tier thorough > build/thorough/{}.log 2>&1; rc=$?; echo "{} exit=$rc $(grep -c "^VIOLATION" build/thorough/{}.log) violations wall=$(( $(date +%s) - s ))s | $(tail -1 build/thorough/{}.log | cut -c1-160)"'
